@@ -334,6 +334,8 @@ class StructGen:
             ends.append(
                 self.pick_vertex(rng, view, prefer=ends, pool=mp)
             )
+        if self.cfg.get("multi_no_repeat"):
+            ends = list(dict.fromkeys(ends))
         return {"op": "mk_multi", "new": namer.new("m"), "ends": ends}
 
     def _mv_and_multi(self, rng, view, member):
@@ -353,6 +355,8 @@ class StructGen:
             return None
         if rng.random() < self.cfg.get("p_none", 0.0):
             v = None
+        if self.cfg.get("multi_no_repeat") and v in view.ends(m):
+            return None
         return {"op": "add_vertex", "e": m, "v": v}
 
     def g_multi_unlink(self, rng, view, namer):
